@@ -417,7 +417,27 @@ impl Property for CpuProp {
                 let mut w = WorldA::new(&CpuState::default(), Outside::new(mem, 0, vec![0], 0));
                 for _ in 0..n {
                     let mut st = CpuState::random(&mut rng);
-                    let enc = encode_stratified(&mut rng);
+                    let mut enc = encode_stratified(&mut rng);
+                    // operands that name the instruction itself (JP $, CALL $, LD HL,($) ..., JR $ / DJNZ $)
+                    if rng.chance(1, 12) {
+                        let [lo, hi] = st.pc.to_le_bytes();
+                        match enc[0] {
+                            0xCB => {}
+                            0xED | 0xDD | 0xFD if enc.len() >= 4 && enc[1] != 0xCB => {
+                                enc[2] = lo;
+                                enc[3] = hi;
+                            }
+                            0xED | 0xDD | 0xFD => {}
+                            _ => {
+                                if rng.bool() {
+                                    enc[1] = lo;
+                                    enc[2] = hi;
+                                } else {
+                                    enc[1] = 0xFE;
+                                }
+                            }
+                        }
+                    }
                     // counters that select timing variants: small B / BC in a share of cases
                     match rng.below(8) {
                         0 => st.bc = (st.bc & 0x00FF) | 0x0100,
